@@ -10,12 +10,12 @@ import time
 from . import mirparse
 from .interp import Interp
 from .models import MODELS, load_consts
-from .oracle import Oracle, VERIF
+from .oracle import Oracle, VERIF, CACHE as _CACHE
 from .schema import load_schema, Conv
 from .values import *
 
 REPO = os.environ.get('VERIF_REPO', '/repo')
-CACHE = os.path.join(VERIF, '.cache')
+CACHE = _CACHE
 ENV = dict(os.environ, CARGO_NET_OFFLINE='true', CARGO_TERM_COLOR='never')
 
 
@@ -66,7 +66,16 @@ def build_oracle():
     fcntl.flock(lock, fcntl.LOCK_EX)
     try:
         env = dict(ENV, CARGO_TARGET_DIR=os.path.join(CACHE, 'oracle-target'))
-        rc, out, errt = sh(['cargo', 'build', '--offline'], os.path.join(VERIF, 'oracle'), env)
+        crate = os.path.join(VERIF, 'oracle')
+        if REPO != '/repo':
+            # dev only (VERIF_REPO): the helper crate names the repository by path; build a copy that names the other tree
+            crate = os.path.join(CACHE, 'oracle-src')
+            if os.path.exists(crate):
+                shutil.rmtree(crate)
+            shutil.copytree(os.path.join(VERIF, 'oracle'), crate, ignore=shutil.ignore_patterns('target'))
+            t = open(os.path.join(crate, 'Cargo.toml')).read().replace('"/repo/wgsl_to_wgpu"', f'"{REPO}/wgsl_to_wgpu"')
+            open(os.path.join(crate, 'Cargo.toml'), 'w').write(t)
+        rc, out, errt = sh(['cargo', 'build', '--offline'], crate, env)
         if rc != 0:
             raise BuildError('oracle build failed:\n' + errt[-3000:])
     finally:
